@@ -34,6 +34,8 @@ def cases(draw, cls, max_n=120):
         vals = [draw(st.sampled_from((True, False, None) if kind == "bool" else (0, 1, 1, 2, None))) for _ in range(n)]
         return {"cfg": {"cls": "Counter", "kw": {"input_value": "X", "count_value": draw(st.sampled_from((True, False, 0, 1)))}}, "stream": rows, "values": vals}
     cfg = draw(gc.config(cls))
+    if draw(st.integers(0, 9)) == 0:
+        cfg["kw"]["name_suffix"] = draw(st.sampled_from(("b", "v1.5")))  # a legal suffix; dots are sanitised
     w = gc.warmup(cfg)
     n = draw(st.one_of(st.integers(0, w + 3), st.integers(w, max_n)))
     if draw(st.integers(0, 3)) == 0:
@@ -50,6 +52,17 @@ def supertrend_tie_cases(draw):
     grid = draw(st.sampled_from(((1.0, 0), (0.25, 2), (0.5, 1))))
     rows = draw(gs.price_rows(n, regimes=("walk", "up", "down", "flatbody", "flat"), grid=grid, base=draw(st.sampled_from((20, 100))), zero_volume_runs=False))
     return {"cfg": {"cls": "Supertrend", "kw": kw}, "stream": [[None] + r for r in rows]}
+
+
+@st.composite
+def micro_price_cases(draw, cls):
+    """a micro-priced instrument read with 6 or 8 decimals: helper-free dict readings must keep that precision"""
+    kw = {"period": draw(st.integers(2, 8)), "round_value": draw(st.sampled_from((6, 8, 8)))}
+    n = draw(st.integers(kw["period"] + 3, 60))
+    if cls in ("TR", "HighLowAverage"):
+        kw.pop("period")
+    rows = draw(gs.price_rows(n, grid=(0.000001, 6), base=draw(st.sampled_from((40, 400, 4000))), zero_volume_runs=False))
+    return {"cfg": {"cls": cls, "kw": kw}, "stream": [[None] + r for r in rows]}
 
 
 def _fields(ind, names):
@@ -213,4 +226,6 @@ def shards(tier):
         cost = 3 if c in ("Supertrend", "KC", "BBANDS") else 1
         out.append(Shard(c, (lambda c=c: cases(c)), n, subject=c, cost=cost))
     out.append(Shard("Supertrend-ties", lambda: supertrend_tie_cases(), n, subject="Supertrend", cost=2))
+    for c in ("Donchian", "HighestLowest", "HighLowAverage", "TR"):
+        out.append(Shard(c + "-micro", (lambda c=c: micro_price_cases(c)), n // 2, subject=c))
     return out
